@@ -718,11 +718,24 @@ inline void runC04(Ctx &c)
             c.dump = [&]() { return dumpProblem(p); };
             bool viaPts = false;
             auto s = makeSplineHist(c, r, p, viaPts);
+            const std::vector<double> tpReq = p.timePoints();
             if (viaPts)
                 p = effectiveFromPoints(p);
             MatrixXd C = s->coeffs();
             if (!c.require("C04.coeff_shape", C.rows() == p.ncoef() * p.N && C.cols() == p.dim, keyJson(p, "shape", 0)))
                 continue;
+            {
+                // the trajectory whose integral is meant is the published one: its pieces live on the requested knot times
+                // (the integral below pairs the published coefficients with the requested durations)
+                std::vector<double> bp = s->breakpoints();
+                bool ok = (int)bp.size() == p.N + 1;
+                double tmax = 0;
+                for (double t : tpReq)
+                    tmax = std::max(tmax, std::fabs(t));
+                for (int i = 0; ok && i <= p.N; ++i)
+                    ok = std::fabs(bp[i] - tpReq[i]) <= (i + 1) * ulpOf(tmax);
+                c.require("C04.published_knots_are_the_requested_ones", ok, keyJson(p, "knots", 0));
+            }
             if (!allFinite(C))
             {
                 // overflow of the solver on extreme durations: the property quantifies over coefficient sets the solver
